@@ -9,8 +9,30 @@ import (
 
 func cleanEmptyLines(code string) string {
 	lines := strings.Split(strings.TrimSpace(code), "\n")
+	literal := byte(0) // delimiter of the string literal a line ends in, '/' inside a comment
 	for i, line := range lines {
-		lines[i] = strings.TrimRight(line, " ")
+		for j := 0; j < len(line); j++ {
+			switch c := line[j]; {
+			case literal == '/':
+			case literal != 0:
+				if c == '\\' {
+					j++
+				} else if c == literal {
+					literal = 0
+				}
+			case c == '"' || c == '`':
+				literal = c
+			case c == '/' && j+1 < len(line) && line[j+1] == '/':
+				literal = '/'
+			}
+		}
+		if literal == '/' {
+			literal = 0
+		}
+		// trailing spaces inside a multi-line literal belong to its value
+		if literal == 0 {
+			lines[i] = strings.TrimRight(line, " ")
+		}
 	}
 	return strings.Join(lines, "\n")
 }
